@@ -669,3 +669,26 @@ def success_value(t):
             return ("some", inner)
         return t
     return t
+
+
+def deciding_guards(body, prov, targets, max_chain=8):
+    """Boolean guards one of whose edges leads straight (through blocks with a single predecessor and a single successor)
+    into one of the `targets` blocks: the conditions that immediately decide those exits.  [(guard, polarity, target)]"""
+    targets = set(targets)
+    preds = body.preds()
+    out = []
+    for g in guards(body, prov):
+        for edge, pol in ((g.true_edge, True), (g.false_edge, False)):
+            cur = edge[1]
+            for _ in range(max_chain):
+                if cur in targets:
+                    out.append((g, pol, cur))
+                    break
+                blk = body.blocks[cur]
+                if len(preds.get(cur, [])) > 1 or not blk.term or blk.term["k"] in ("switch", "return", "unreachable"):
+                    break
+                nxt = blk.succs()
+                if len(nxt) != 1:
+                    break
+                cur = nxt[0]
+    return out
